@@ -807,6 +807,10 @@ def c46(res, tier, seed):
     # concatenation with complementary sub-fields (merge, never replace): Merge, concatenated decoding, Unmarshal{Merge}
     mc(res, b, "legacy2-merge", legname(LEG2[5]), [116], ["merge", "cat", "umerge"], 3, nobj=3, nest_at=116, nest_fields=[1, 2], flavs=f2,
        laws=["AllWellFormed", "MergeIsConcat", "MergeOptionLaw"])
+    # occurrences of the legacy-typed message field 116 with the right (a2 07) and with WRONG wire types (a0 07 varint, a5 07 fixed32):
+    # the wrong ones are unknown fields and must not populate the field (F35)
+    mc(res, b, "legacy2-wire", legname(LEG2[5]), [116], ["uwire", "uwmerge"], 2, nest_at=116, nest_fields=[1],
+       wire_recs=[[160, 7, 1], [162, 7, 0], [165, 7, 1, 0, 0, 0], [162, 7, 2, 10, 0]], max_recs=2, flavs=f2, laws=["AllWellFormed"])
     mc(res, b, "legacy3", legname(LEG3[5]), [101, 201, 300], ["rt", "clone", "merge", "equal"], 2, flavs=f3)
     types = [legname(g) for g in LEG2 + LEG3] + [legname(g) + ":dyn" for g in (LEG2[0], LEG2[5], LEG3[0], LEG3[5])]
     os.environ["VERIF_MIX"] = "mut=10,marshal=3,size=1,unmarshal=3,rt=3,merge=2,clone=2,equal=2,checkinit=2,umerge=1,cat=1"
